@@ -2,14 +2,29 @@
 
 Values travel to the model as their class name (or None); the oracle is the statement's four
 clauses evaluated directly with isinstance against the natural class of each column type.
+
+Case kinds
+  validate   one record against one freshly built schema
+  appends    a history of appends to one schema-bound frame (created from a list of rows, with rows=None,
+             or from a generator of rows)
+  session    ONE RelationSchema object used many times: validate, change the column list (columns.append /
+             insert / del / pop_column / assignment / in-place change of a column / reverse), touch state
+             the property does not depend on, copy the object, validate again, append through frames bound
+             to it — every verdict is judged against the columns as they are at that moment
+  dictframe  appends to a frame built from dictionaries (no schema object: atomicity and column order only)
 """
+import collections
+import copy
 import datetime
 import decimal
 import itertools
 import warnings
 
+import numpy
+
 from .. import wire
 from ..core import InfraError, shrink
+from ..extractors.c05 import CLASSES, MyDateTime, MyDict, MyInt, MyStr
 
 # the Python class each column type stands for (the statement: "an instance of its column type's Python class")
 EXPECTED_CLASS = {
@@ -18,6 +33,7 @@ EXPECTED_CLASS = {
     "ARRAY": list, "STRUCT": dict, "JSONB": bytes,
 }
 TYPES = sorted(EXPECTED_CLASS)
+CLASS_NAME = {c: n for n, c in CLASSES.items()}
 
 # value pool: tag -> value. Tags keep cases JSON-serialisable.
 POOL = {
@@ -26,151 +42,167 @@ POOL = {
     "datetime": datetime.datetime(2024, 2, 29, 12, 30, 1), "time": datetime.time(1, 2, 3),
     "timedelta": datetime.timedelta(days=1, seconds=5), "dict": {"k": 1}, "decimal": decimal.Decimal("1.50"),
     "list": [1, 2], "tuple": (1, 2), "set": {1},
+    # unusual but legal (round 2): signed zero, infinities, subclasses, numpy scalars, unhashable and nested values,
+    # the 64-bit boundaries of the row serialiser
+    "negzero": -0.0, "inf": float("inf"), "decnan": decimal.Decimal("NaN"), "nonascii": "héllo ✓ \U0001f600",
+    "emptybytes": b"", "bytearray": bytearray(b"ab"), "frozenset": frozenset([1]),
+    "myint": MyInt(7), "mystr": MyStr("sub"), "mydt": MyDateTime(2020, 1, 2, 3, 4, 5), "mydict": MyDict(a=1),
+    "ordereddict": collections.OrderedDict(a=1), "defaultdict": collections.defaultdict(list, a=[1]),
+    "np_int64": numpy.int64(3), "np_float64": numpy.float64(2.5), "np_bool": numpy.bool_(True), "np_str": numpy.str_("n"),
+    "np_arr": numpy.array([1, 2]), "nested": [[1], {"a": [2, {"b": None}]}], "emptylist": [], "emptydict": {},
+    "i64max": 2**63 - 1, "i64min": -(2**63), "u64max": 2**64 - 1,
     # accepted by validation, rejected when the row is sized (atomicity of append)
-    "int70": 2**70,
+    "int70": 2**70, "u64over": 2**64, "i64under": -(2**63) - 1, "list70": [1, [2**70]], "dict70": {"k": {"j": 2**70}},
 }
+UNSIZABLE = ("int70", "u64over", "i64under", "list70", "dict70")
+ORDINARY = [t for t in POOL if t not in UNSIZABLE]
 RIGHT = {
-    "BOOLEAN": ["true", "false"], "INTEGER": ["int", "int0", "bigint", "true"], "DOUBLE": ["float", "nan"],
-    "DECIMAL": ["decimal"], "VARCHAR": ["str", "empty"], "BLOB": ["bytes"], "DATE": ["date", "datetime"],
-    "TIMESTAMP": ["datetime"], "TIME": ["time"], "INTERVAL": ["timedelta"], "ARRAY": ["list"], "STRUCT": ["dict"],
-    "JSONB": ["bytes"],
+    "BOOLEAN": ["true", "false"], "INTEGER": ["int", "int0", "bigint", "true", "myint", "i64max", "i64min", "u64max"],
+    "DOUBLE": ["float", "nan", "negzero", "inf", "np_float64"], "DECIMAL": ["decimal", "decnan"],
+    "VARCHAR": ["str", "empty", "nonascii", "mystr", "np_str"], "BLOB": ["bytes", "emptybytes"],
+    "DATE": ["date", "datetime", "mydt"], "TIMESTAMP": ["datetime", "mydt"], "TIME": ["time"], "INTERVAL": ["timedelta"],
+    "ARRAY": ["list", "nested", "emptylist"], "STRUCT": ["dict", "mydict", "ordereddict", "defaultdict", "emptydict"],
+    "JSONB": ["bytes", "emptybytes"],
+}
+UNSIZABLE_FOR = {"INTEGER": ["int70", "u64over", "i64under"], "ARRAY": ["list70"], "STRUCT": ["dict70"], None: list(UNSIZABLE)}
+
+# record keys that are not strings travel as "\x01<tag>"
+KEYPOOL = {"int1": 1, "intm1": -1, "intm2": -2, "none": None, "tuple": ("c0",), "bytes": b"c0"}
+KEY_OF = {(type(v), v): "\x01" + t for t, v in KEYPOOL.items()}
+NFC, NFD = "\u00e9", "e\u0301"  # the same letter in two normal forms: two different keys
+ODD_NAMES = ["", "C0", " c0", "c0 ", NFC, NFD, "\u5217", "c" * 70, "0", "name", "type"]
+
+CONTAINERS = {
+    "dict": dict, "OrderedDict": collections.OrderedDict, "defaultdict": lambda d: collections.defaultdict(list, d),
+    "UserDict": collections.UserDict, "MyDict": MyDict,
 }
 
 
 def cls_name(v):
-    return None if v is None else type(v).__name__
+    if v is None:
+        return None
+    try:
+        return CLASS_NAME[type(v)]
+    except KeyError:
+        raise InfraError("value class %r is not in the measured subclass table" % type(v))
+
+
+def real_key(k):
+    return KEYPOOL[k[1:]] if k.startswith("\x01") else k
+
+
+def key_name(k):
+    if isinstance(k, str):
+        return k
+    return KEY_OF.get((type(k), k), "\x01?" + repr(k))
+
+
+def norm_col(c):
+    """[name, type, nullable] (round 1 cases: the two standard aliases) or [name, type, nullable, aliases]."""
+    if len(c) == 3:
+        return [c[0], c[1], bool(c[2]), ["alias_" + c[0], c[0].upper() + "_aka"]]
+    return [c[0], c[1], bool(c[2]), list(c[3])]
+
+
+def make_col(c):
+    from orso.schema import FlatColumn
+    from orso.types import OrsoTypes
+
+    name, ty, nullable, aliases = norm_col(c)
+    with warnings.catch_warnings():
+        warnings.simplefilter("ignore")
+        # a record key equal to an alias is NOT the column's name
+        if ty is None:
+            return FlatColumn(name=name, nullable=nullable, aliases=list(aliases))
+        return FlatColumn(name=name, type=OrsoTypes[ty], nullable=nullable, aliases=list(aliases))
 
 
 def make_schema(cols):
-    from orso.schema import FlatColumn, RelationSchema
-    from orso.types import OrsoTypes
+    from orso.schema import RelationSchema
 
-    out = []
-    with warnings.catch_warnings():
-        warnings.simplefilter("ignore")
-        for name, ty, nullable in cols:
-            # every column also carries aliases: a record key equal to an alias is NOT the column's name
-            kw = {"aliases": ["alias_" + name, name.upper() + "_aka"]}
-            if ty is None:
-                out.append(FlatColumn(name=name, nullable=nullable, **kw))
-            else:
-                out.append(FlatColumn(name=name, type=OrsoTypes[ty], nullable=nullable, **kw))
-    return RelationSchema(name="t", columns=out)
+    return RelationSchema(name="t", columns=[make_col(c) for c in cols])
 
 
-def record_of(tags):
-    return {k: POOL[t] for k, t in tags.items()}
+def record_of(tags, container="dict"):
+    return CONTAINERS[container]({real_key(k): POOL[t] for k, t in tags.items()})
+
+
+def sizable(tags):
+    return not any(t in UNSIZABLE for t in tags.values())
 
 
 def expected(cols, rec):
     """The statement, evaluated directly."""
     names = [c[0] for c in cols]
-    excess = sorted(k for k in rec if k not in names)
+    excess = sorted(key_name(k) for k in rec if k not in names)
     if excess:
         return ["excess", excess]
-    missing = [n for n, _, _ in cols if n not in rec]
-    nulls = [n for n, _, nl in cols if n in rec and rec[n] is None and not nl]
-    wrong = [n for n, ty, _ in cols if n in rec and rec[n] is not None and ty is not None
-             and not isinstance(rec[n], EXPECTED_CLASS[ty])]
+    missing = [c[0] for c in cols if c[0] not in rec]
+    nulls = [c[0] for c in cols if c[0] in rec and rec[c[0]] is None and not c[2]]
+    wrong = [c[0] for c in cols if c[0] in rec and rec[c[0]] is not None and c[1] is not None
+             and not isinstance(rec[c[0]], EXPECTED_CLASS[c[1]])]
     if missing or nulls or wrong:
         return ["invalid", missing, nulls, wrong]
     return ["ok"]
 
 
-def impl_validate(schema, rec):
+def outcome_of_exception(e):
     from orso.exceptions import DataValidationError, ExcessColumnsInDataError
 
-    try:
-        r = schema.validate(dict(rec))
-        return ["ok"] if r is True else ["returned", repr(r)]
-    except ExcessColumnsInDataError as e:
-        return ["excess", sorted(e.columns)]
-    except DataValidationError as e:
+    if isinstance(e, ExcessColumnsInDataError):
+        try:
+            return ["excess", sorted(key_name(k) for k in e.columns)]
+        except Exception as e2:
+            return ["raised", "ExcessColumnsInDataError without usable columns (%s)" % type(e2).__name__]
+    if isinstance(e, DataValidationError):
         err = e.errors
         known = {"Column in Schema Not Found in Record", "Column not Nullable", "Incorrect Type"}
-        if set(err) - known:
-            return ["raised", "DataValidationError with unknown keys %r" % sorted(set(err) - known)]
-        return ["invalid", list(err.get("Column in Schema Not Found in Record", [])),
-                list(err.get("Column not Nullable", [])), [t[0] for t in err.get("Incorrect Type", [])]]
+        try:
+            if set(err) - known:
+                return ["raised", "DataValidationError with unknown keys %r" % sorted(set(err) - known)]
+            return ["invalid", list(err.get("Column in Schema Not Found in Record", [])),
+                    list(err.get("Column not Nullable", [])), [t[0] for t in err.get("Incorrect Type", [])]]
+        except Exception as e2:
+            return ["raised", "DataValidationError without usable errors (%s)" % type(e2).__name__]
+    return ["raised", type(e).__name__]
+
+
+def impl_validate(schema, rec):
+    try:
+        r = schema.validate(rec)
+        return ["ok"] if r is True else ["returned", repr(r)]
     except Exception as e:
-        return ["raised", type(e).__name__]
+        return outcome_of_exception(e)
 
 
-def model_cols(cols):
-    return [[n, ty, bool(nl)] for n, ty, nl in cols]
+def canon(o):
+    """The statement says which columns an error names, not in which order: compare as sorted lists."""
+    if o and o[0] in ("excess", "invalid"):
+        return [o[0]] + [sorted(x) for x in o[1:]]
+    return o
+
+
+def judge_validate(got, want):
+    if canon(got) == canon(want):
+        return None
+    if want[0] == "ok":
+        return "a conforming record was rejected"
+    if got[0] == "ok":
+        return "a non-conforming record was accepted"
+    if got[0] != want[0]:
+        return "wrong kind of validation error (%s instead of %s)" % (got[0], want[0])
+    return "the error does not name precisely the offending columns"
 
 
 def run_validate(case):
-    schema = make_schema(case["cols"])
-    rec = record_of(case["record"])
-    got = impl_validate(schema, rec)
-    want = expected(case["cols"], rec)
-    clause = None
-    if got != want:
-        if want[0] == "ok":
-            clause = "a conforming record was rejected"
-        elif got[0] == "ok":
-            clause = "a non-conforming record was accepted"
-        elif got[0] != want[0]:
-            clause = "wrong kind of validation error (%s instead of %s)" % (got[0], want[0])
-        else:
-            clause = "the error does not name precisely the offending columns"
-    return clause, got
-
-
-def run_appends(case):
-    from orso import DataFrame
-    from orso.exceptions import DataError
-
-    cols = case["cols"]
+    cols = [norm_col(c) for c in case["cols"]]
     schema = make_schema(cols)
-    init = [tuple(POOL[t] for t in row) for row in case["rows"]]
-    df = DataFrame(rows=list(init), schema=schema)
-    held = list(init)
-    clause = None
-    outcomes = []
-    for tags in case["records"]:
-        rec = record_of(tags)
-        want = expected(cols, rec)
-        before = list(df._rows)
-        try:
-            df.append(dict(rec))
-            raised = None
-        except Exception as e:
-            raised = e
-        after = list(df._rows)
-        if raised is not None:
-            outcomes.append("raised:" + type(raised).__name__)
-            if len(after) != len(before) or any(a is not b for a, b in zip(after, before)):
-                clause = clause or "append raised but changed the frame's rows"
-            if want[0] == "ok":
-                # accepted by validation but the row could not be stored (e.g. cannot be sized): allowed only if atomic
-                if not any(t in ("int70",) for t in tags.values()):
-                    clause = clause or "append of a conforming record raised %s" % type(raised).__name__
-            elif not isinstance(raised, DataError):
-                clause = clause or "append of a non-conforming record raised %s, not a validation error" % type(raised).__name__
-        else:
-            outcomes.append("ok")
-            if want[0] != "ok":
-                clause = clause or "append accepted a non-conforming record"
-            row = tuple(rec.get(n) for n, _, _ in cols)
-            if len(after) != len(before) + 1 or any(a is not b for a, b in zip(after, before)):
-                clause = clause or "append did not add exactly one row"
-            elif not wire_eq(tuple(after[-1]), row):
-                clause = clause or "appended row does not hold the values in column order"
-            held.append(row)
-    final = [tuple(r) for r in df._rows]
-    if clause is None and (len(final) != len(held) or not all(wire_eq(a, b) for a, b in zip(final, held))):
-        clause = "the frame does not hold exactly the accepted records, in order"
-    if clause is None:
-        for r in final:
-            for (n, ty, nl), v in zip(cols, r):
-                if v is None and not nl:
-                    clause = "a stored row has a null in a non-nullable column"
-                if v is not None and ty is not None and not isinstance(v, EXPECTED_CLASS[ty]):
-                    clause = "a stored row has a wrongly typed value"
-    abstract = [[cls_name(v) for v in r] for r in final]
-    return clause, {"outcomes": outcomes, "rows": abstract}
+    rec = record_of(case["record"], case.get("container", "dict"))
+    got = impl_validate(schema, rec)
+    return judge_validate(got, expected(cols, rec)), got
+
+
+# ----------------------------------------------------------------------------- frames
 
 
 def wire_eq(a, b):
@@ -179,111 +211,702 @@ def wire_eq(a, b):
     for x, y in zip(a, b):
         if x is y:
             continue
-        if type(x) is not type(y):
-            return False
-        if x != y and not (x != x and y != y):
+        if type(x) is not type(y) or repr(x) != repr(y):
             return False
     return True
 
 
+def run_frame(schema, cols, init_tags, records, how="list", containers=None):
+    """Appends `records` to a frame bound to `schema`; every verdict is judged against `cols`."""
+    from orso import DataFrame
+    from orso.exceptions import DataError
+
+    init = [tuple(POOL[t] for t in row) for row in init_tags]
+    if how == "none" and not init:
+        df = DataFrame(schema=schema)
+    elif how == "gen":
+        df = DataFrame(rows=(r for r in list(init)), schema=schema)
+    else:
+        df = DataFrame(rows=list(init), schema=schema)
+    held = list(init)
+    clause = None
+    results = []
+
+    def rows_now():
+        df.materialize()
+        return list(df._rows)
+
+    before = list(init) if how == "gen" else rows_now()
+    for i, tags in enumerate(records):
+        rec = record_of(tags, (containers or {}).get(str(i), "dict") if isinstance(containers, dict) else "dict")
+        want = expected(cols, rec)
+        try:
+            df.append(rec)
+            raised = None
+        except Exception as e:
+            raised = e
+        after = rows_now()
+        if raised is not None:
+            got = outcome_of_exception(raised)
+            results.append(["rejected", got] if got[0] in ("excess", "invalid") else ["raised", type(raised).__name__])
+            if len(after) != len(before) or any(a is not b for a, b in zip(after, before)):
+                if how == "gen" and i == 0 and len(after) == len(before) and all(wire_eq(tuple(a), tuple(b)) for a, b in zip(after, before)):
+                    pass  # a lazy frame materialised: same rows, new list
+                else:
+                    clause = clause or "append raised but changed the frame's rows"
+            if want[0] == "ok":
+                # accepted by validation but the row could not be stored (it cannot be sized): allowed only if atomic
+                if sizable(tags):
+                    clause = clause or "append of a conforming record raised %s" % type(raised).__name__
+            elif not isinstance(raised, DataError):
+                clause = clause or "append of a non-conforming record raised %s, not a validation error" % type(raised).__name__
+            elif canon(got) != canon(want):
+                clause = clause or (judge_validate(got, want) + " (raised by append)")
+        else:
+            results.append(["ok"])
+            if want[0] != "ok":
+                clause = clause or "append accepted a non-conforming record"
+            row = tuple(rec.get(c[0]) for c in cols)
+            if len(after) != len(before) + 1 or any(a is not b and not (how == "gen" and i == 0) for a, b in zip(after, before)):
+                clause = clause or "append did not add exactly one row"
+            elif not wire_eq(tuple(after[-1]), row):
+                clause = clause or "appended row does not hold the values in column order"
+            held.append(row)
+        before = after
+    final = [tuple(r) for r in rows_now()]
+    if clause is None and (len(final) != len(held) or not all(wire_eq(a, b) for a, b in zip(final, held))):
+        clause = "the frame does not hold exactly the accepted records, in order"
+    if clause is None:
+        for r in final:
+            for c, v in zip(cols, r):
+                if v is None and not c[2]:
+                    clause = "a stored row has a null in a non-nullable column"
+                if v is not None and c[1] is not None and not isinstance(v, EXPECTED_CLASS[c[1]]):
+                    clause = "a stored row has a wrongly typed value"
+    abstract = [[cls_name(v) for v in r] for r in final]
+    return clause, {"results": results, "rows": abstract}
+
+
+def run_appends(case):
+    cols = [norm_col(c) for c in case["cols"]]
+    return run_frame(make_schema(cols), cols, case["rows"], case["records"], case.get("how", "list"), case.get("containers"))
+
+
+def run_dictframe(case):
+    """A frame built from dictionaries has no schema object: each append adds one row in column order or raises atomically."""
+    from orso import DataFrame
+
+    first = [record_of(t) for t in case["first"]]
+    df = DataFrame(dictionaries=first)
+    keys = list(first[0].keys())
+    held = [tuple(d.get(k) for k in keys) for d in first]
+    clause = None
+    if not all(wire_eq(tuple(a), b) for a, b in zip(df._rows, held)) or len(df._rows) != len(held):
+        return None, {"skipped": "construction differs"}  # construction is C03's business
+    for i, tags in enumerate(case["records"]):
+        rec = record_of(tags, (case.get("containers") or {}).get(str(i), "dict"))
+        before = list(df._rows)
+        try:
+            df.append(rec)
+            raised = None
+        except Exception as e:
+            raised = e
+        after = list(df._rows)
+        if raised is not None:
+            if len(after) != len(before) or any(a is not b for a, b in zip(after, before)):
+                clause = clause or "append raised but changed the frame's rows"
+            if sizable(tags):
+                clause = clause or "append to a dictionary-built frame raised %s" % type(raised).__name__
+        else:
+            row = tuple(rec.get(k) for k in keys)
+            if len(after) != len(before) + 1 or any(a is not b for a, b in zip(after, before)):
+                clause = clause or "append did not add exactly one row"
+            elif not wire_eq(tuple(after[-1]), row):
+                clause = clause or "appended row does not hold the values in column order"
+    return clause, {"rows": len(df._rows)}
+
+
+# ----------------------------------------------------------------------------- sessions on one schema object
+
+
+class BadCase(Exception):
+    pass
+
+
+def apply_to_mirror(cur, op):
+    """The column list (as the harness tracks it, independently of orso) after `op`."""
+    k = op[0]
+    if k in ("validate", "frame", "touch"):
+        return cur
+    if k == "add":
+        return cur + [norm_col(op[1])]
+    if k == "insert":
+        if not 0 <= op[1] <= len(cur):
+            raise BadCase("insert index")
+        return cur[: op[1]] + [norm_col(op[2])] + cur[op[1]:]
+    if k == "del":
+        if not 0 <= op[1] < len(cur):
+            raise BadCase("del index")
+        return cur[: op[1]] + cur[op[1] + 1:]
+    if k == "pop":
+        for i, c in enumerate(cur):
+            if c[0] == op[1]:
+                return cur[:i] + cur[i + 1:]
+        return cur
+    if k == "replace":
+        return [norm_col(c) for c in op[1]]
+    if k == "set":
+        if not 0 <= op[1] < len(cur):
+            raise BadCase("set index")
+        return cur[: op[1]] + [norm_col(op[2])] + cur[op[1] + 1:]
+    if k == "reverse":
+        return list(reversed(cur))
+    raise BadCase("op %r" % (k,))
+
+
+def apply_to_schema(schema, op):
+    """The same operation on the real object; returns the schema object to go on with."""
+    from orso.types import OrsoTypes
+
+    k = op[0]
+    if k == "add":
+        schema.columns.append(make_col(op[1]))
+    elif k == "insert":
+        schema.columns.insert(op[1], make_col(op[2]))
+    elif k == "del":
+        del schema.columns[op[1]]
+    elif k == "pop":
+        schema.pop_column(op[1])
+    elif k == "replace":
+        schema.columns = [make_col(c) for c in op[1]]
+    elif k == "set":
+        name, ty, nullable, aliases = norm_col(op[2])
+        col = schema.columns[op[1]]
+        col.name = name
+        col.type = OrsoTypes._MISSING_TYPE if ty is None else OrsoTypes[ty]
+        col.nullable = nullable
+        col.aliases = list(aliases)
+    elif k == "reverse":
+        schema.columns.reverse()
+    elif k == "touch":
+        what = op[1]
+        with warnings.catch_warnings():
+            warnings.simplefilter("ignore")
+            if what == "names":
+                schema.column_names, schema.all_column_names(), list(schema), schema.num_columns
+            elif what == "find":
+                schema.find_column("c0"), schema.find_column("C0", case_insensitive=True), schema.column("zz")
+            elif what == "rename-schema":
+                schema.name = schema.name + "x"
+                schema.aliases = list(schema.aliases) + ["a"]
+            elif what == "metadata":
+                schema.primary_key = "c0"
+                schema.row_count_estimate = 5
+                for c in schema.columns:
+                    c.description = "d"
+                    c.origin = ["o"]
+            elif what == "relist":
+                schema.columns = list(schema.columns)
+            elif what == "deepcopy":
+                return copy.deepcopy(schema)
+            elif what == "copy":
+                return copy.copy(schema)
+            elif what == "add-empty":
+                from orso.schema import RelationSchema
+
+                return schema + RelationSchema(name="o", columns=[])
+            elif what == "to_dict":
+                schema.to_dict()
+            else:
+                raise BadCase("touch %r" % (what,))
+    else:
+        raise BadCase("op %r" % (k,))
+    return schema
+
+
+MUTATIONS = ("add", "insert", "del", "pop", "replace", "set", "reverse")
+TOUCHES = ("names", "find", "rename-schema", "metadata", "relist", "deepcopy", "copy", "add-empty", "to_dict")
+
+
+def run_session(case):
+    cur = [norm_col(c) for c in case["cols"]]
+    schema = make_schema(cur)
+    clause = None
+    outs = []
+    for op in case["ops"]:
+        k = op[0]
+        c = None
+        if k == "validate":
+            rec = record_of(op[1], op[2] if len(op) > 2 else "dict")
+            got = impl_validate(schema, rec)
+            c = judge_validate(got, expected(cur, rec))
+            outs.append(["outcome", got])
+        elif k == "frame":
+            c, got = run_frame(schema, cur, op[1], op[2], op[3] if len(op) > 3 else "list")
+            outs.append(["frame", got["rows"], got["results"]])
+        else:
+            schema = apply_to_schema(schema, op)
+            cur = apply_to_mirror(cur, op)
+            if [c_.name for c_ in schema.columns] != [c_[0] for c_ in cur]:
+                raise InfraError("the harness's mirror of the column list and the schema object disagree after %r" % (op,))
+        if c is not None and clause is None:
+            clause = c
+            run_session.failed_at = (list(cur), op)
+    return clause, outs
+
+
+HISTORY = ("the verdict depends on the history of the schema object, not only on its columns now: a schema that was used and then "
+           "changed judges a record differently from a freshly built schema with the same columns")
+
+
+def reduce_session(case, clause):
+    """A session that fails: the same record / appends on a freshly built schema with the columns of that moment.
+    Returns the plain case when it fails too (the history is not needed), else None."""
+    cur, op = run_session.failed_at
+    if op[0] == "validate":
+        plain = {"kind": "validate", "cols": cur, "record": op[1]}
+        if len(op) > 2:
+            plain["container"] = op[2]
+    else:
+        plain = {"kind": "appends", "cols": cur, "rows": op[1], "records": op[2]}
+        if len(op) > 3:
+            plain["how"] = op[3]
+    try:
+        if valid_case(plain):
+            pc = RUNNERS[plain["kind"]](plain)[0]
+            if pc is not None:
+                return plain, pc
+    except InfraError:
+        raise
+    except Exception:
+        pass
+    return None
+
+
+def check_session(case):
+    cur = [norm_col(c) for c in case["cols"]]
+    if not names_ok(cur):
+        return False
+    for op in case["ops"]:
+        if op[0] == "validate":
+            if not all(t in POOL for t in op[1].values()) or (len(op) > 2 and op[2] not in CONTAINERS):
+                return False
+        elif op[0] == "frame":
+            if not rows_ok(cur, op[1]) or not all(all(t in POOL for t in r.values()) for r in op[2]):
+                return False
+            if len(op) > 3 and (op[3] not in ("list", "none", "gen") or (op[3] == "none" and op[1])):
+                return False
+        elif op[0] == "touch":
+            if op[1] not in TOUCHES:
+                return False
+        else:
+            raw = [op[1]] if op[0] == "add" else [op[2]] if op[0] in ("insert", "set") else op[1] if op[0] == "replace" else []
+            if not raw_cols_ok(raw):
+                return False
+            cur = apply_to_mirror(cur, op)
+            if not names_ok(cur):
+                return False
+    return True
+
+
+def raw_cols_ok(cols):
+    """the case's own column entries: [name, type, nullable] or [name, type, nullable, aliases] (the shrinker must not reshape them)"""
+    return all(isinstance(c, list) and len(c) in (3, 4) and isinstance(c[0], str) and isinstance(c[2], bool)
+               and (len(c) == 3 or isinstance(c[3], list)) for c in cols)
+
+
+def names_ok(cols):
+    names = [c[0] for c in cols]
+    if len(set(names)) != len(names):
+        return False
+    for c in cols:
+        if not isinstance(c[0], str) or not (c[1] is None or c[1] in EXPECTED_CLASS) or not isinstance(c[2], bool):
+            return False
+        if not all(isinstance(a, str) for a in c[3]):
+            return False
+    return True
+
+
+def rows_ok(cols, rows):
+    for r in rows:  # initial rows must conform
+        if len(r) != len(cols):
+            return False
+        for c, t in zip(cols, r):
+            if t not in POOL or t in UNSIZABLE:
+                return False
+            v = POOL[t]
+            if (v is None and not c[2]) or (v is not None and c[1] is not None and not isinstance(v, EXPECTED_CLASS[c[1]])):
+                return False
+    return True
+
+
+# ----------------------------------------------------------------------------- model lines
+
+
+def m_rec(tags):
+    return {k: cls_name(POOL[t]) for k, t in tags.items()}
+
+
+def m_rows(rows):
+    return [[cls_name(POOL[t]) for t in row] for row in rows]
+
+
+def m_appends(records):
+    return [[m_rec(r), sizable(r)] for r in records]
+
+
 def model_line(case):
+    cols = [norm_col(c) for c in case["cols"]]
     if case["kind"] == "validate":
-        rec = {k: cls_name(POOL[t]) for k, t in case["record"].items()}
-        return "C05 validate " + wire.line(model_cols(case["cols"]), rec)
-    rows = [[cls_name(POOL[t]) for t in row] for row in case["rows"]]
-    recs = [{k: cls_name(POOL[t]) for k, t in r.items()} for r in case["records"]]
-    return "C05 appends " + wire.line(model_cols(case["cols"]), rows, recs)
+        return "C05 validate " + wire.line(cols, m_rec(case["record"]))
+    if case["kind"] == "session":
+        ops = []
+        cur = cols
+        for op in case["ops"]:
+            k = op[0]
+            if k == "validate":
+                ops.append(["validate", m_rec(op[1])])
+            elif k == "frame":
+                ops.append(["frame", m_rows(op[1]), m_appends(op[2])])
+            elif k == "touch":
+                continue
+            elif k == "reverse":
+                ops.append(["replace", list(reversed(cur))])
+            elif k in ("add",):
+                ops.append(["add", norm_col(op[1])])
+            elif k in ("insert", "set"):
+                ops.append([k, op[1], norm_col(op[2])])
+            elif k == "replace":
+                ops.append(["replace", [norm_col(c) for c in op[1]]])
+            else:
+                ops.append(list(op))
+            cur = apply_to_mirror(cur, op)
+        return "C05 session " + wire.line(cols, ops)
+    return "C05 appends " + wire.line(cols, m_rows(case["rows"]), m_appends(case["records"]))
 
 
 def valid_case(c):
     try:
-        names = [x[0] for x in c["cols"]]
-        if len(set(names)) != len(names):
+        kind = c["kind"]
+        if kind == "multi":
+            return bool(c["cases"]) and all(x.get("kind") != "multi" and valid_case(x) for x in c["cases"])
+        if kind == "dictframe":
+            return all(v in CONTAINERS for v in (c.get("containers") or {}).values()) and bool(c["first"]) and all(all(t in POOL and t not in UNSIZABLE for t in r.values()) for r in c["first"]) \
+                and all(all(t in POOL for t in r.values()) for r in c["records"]) and bool(c["first"][0])
+        if not raw_cols_ok(c["cols"]):
             return False
-        for n, ty, nl in c["cols"]:
-            if not isinstance(n, str) or not (ty is None or ty in EXPECTED_CLASS) or not isinstance(nl, bool):
-                return False
-        if c["kind"] == "validate":
-            return all(t in POOL for t in c["record"].values())
-        if any(len(r) != len(names) for r in c["rows"]):
+        cols = [norm_col(x) for x in c["cols"]]
+        if not names_ok(cols):
             return False
-        for r in c["rows"]:  # initial rows must conform
-            for (n, ty, nl), t in zip(c["cols"], r):
-                v = POOL[t]
-                if (v is None and not nl) or (v is not None and ty is not None and not isinstance(v, EXPECTED_CLASS[ty])) or t == "int70":
-                    return False
-        return all(all(t in POOL for t in r.values()) for r in c["records"])
+        if kind == "validate":
+            return all(t in POOL for t in c["record"].values()) and c.get("container", "dict") in CONTAINERS
+        if kind == "session":
+            return check_session(c)
+        if kind != "appends":
+            return False
+        if c.get("how", "list") not in ("list", "none", "gen") or (c.get("how") == "none" and c["rows"]):
+            return False
+        if not all(v in CONTAINERS for v in (c.get("containers") or {}).values()):
+            return False
+        return rows_ok(cols, c["rows"]) and all(all(t in POOL for t in r.values()) for r in c["records"])
     except Exception:
         return False
 
 
+def norm_excess(o):
+    return canon(o)
+
+
+def norm_result(r):
+    """model AppendResult -> what the harness records for the implementation"""
+    if r[0] == "rejected":
+        return ["rejected", norm_excess(r[1])]
+    return r
+
+
+def results_agree(model_results, impl_results):
+    if len(model_results) != len(impl_results):
+        return False
+    for m, i in zip(model_results, impl_results):
+        m = norm_result(m)
+        if m[0] == "unsizable":
+            if i[0] != "raised":
+                return False
+        elif m != (["rejected", canon(i[1])] if i[0] == "rejected" else i):
+            return False
+    return True
+
+
+def run_multi(case):
+    """Several cases in one process, in order; the verdict is the last one's (state shared between schema objects)."""
+    clause, got = None, None
+    for sub in case["cases"]:
+        clause, got = RUNNERS[sub["kind"]](sub)
+    return clause, got
+
+
+RUNNERS = {"validate": run_validate, "appends": run_appends, "session": run_session, "dictframe": run_dictframe, "multi": run_multi}
+
+SHARED = ("the verdict depends on other schema objects used earlier in the same process (state shared between objects): "
+          "alone, the last case of this sequence is judged correctly")
+
+
+class History:
+    """The cases evaluated so far in this process: the first and the most recent ones (a replay must be self-contained)."""
+
+    def __init__(self, head=150, tail=150):
+        import collections as _c
+
+        self.head, self.n_head, self.tail = [], head, _c.deque(maxlen=tail)
+
+    def add(self, c):
+        if c.get("kind") == "multi":
+            return
+        if len(self.head) < self.n_head:
+            self.head.append(c)
+        else:
+            self.tail.append(c)
+
+    def cases(self):
+        return self.head + list(self.tail)
+
+
+HISTORY_BUF = History()
+
+
+def run_isolated(cases):
+    """Clauses of `cases`, run in order in a fresh interpreter; None when that could not be done."""
+    import json
+    import os
+    import subprocess
+    import sys
+
+    from ..core import VERIF, _jsonable
+
+    try:
+        p = subprocess.run([sys.executable, "-m", "harness.props.c05"], input=json.dumps(_jsonable(cases)), capture_output=True,
+                           text=True, timeout=300, cwd=VERIF, env=dict(os.environ, PYTHONPATH=VERIF))
+        if p.returncode != 0:
+            return None
+        return json.loads(p.stdout.strip().split("\n")[-1])
+    except Exception:
+        return None
+
+
+ISOLATION_BUDGET = {"s": 60.0}
+
+
+def isolate(c_min, c, clause, shown, history):
+    """Make sure the replay reproduces in a fresh process; if the failure needs earlier cases, put the fewest needed in front."""
+    import time
+
+    t0 = time.time()
+    try:
+        return _isolate(c_min, c, clause, shown, history, t0)
+    finally:
+        ISOLATION_BUDGET["s"] -= time.time() - t0
+
+
+def _isolate(c_min, c, clause, shown, history, t0):
+    import time
+
+    def left():
+        return ISOLATION_BUDGET["s"] - (time.time() - t0)
+
+    if left() <= 0:
+        return c_min, shown
+    got = run_isolated([c_min])
+    if got is None or got[-1] == clause:
+        return c_min, shown
+    if c is not c_min:
+        got = run_isolated([c])
+        if got is not None and got[-1] == clause:
+            return c, shown
+    pre = [x for x in history.cases()]
+    got = run_isolated(pre + [c_min])
+    if got is None or got[-1] != clause:
+        return c_min, shown + " (seen in this run only: it did not reproduce in a fresh process, alone or after the recorded earlier cases)"
+    budget, chunk = 30, max(1, len(pre) // 2)
+    while budget > 0 and pre and left() > 0:
+        i, progress = 0, False
+        while i < len(pre) and budget > 0 and left() > 0:
+            trial = pre[:i] + pre[i + chunk:]
+            budget -= 1
+            got = run_isolated(trial + [c_min])
+            if got is not None and got[-1] == clause:
+                pre, progress = trial, True
+            else:
+                i += chunk
+        if chunk == 1 and not progress:
+            break
+        chunk = max(1, chunk // 2)
+    return {"kind": "multi", "cases": pre + [c_min]}, SHARED
+
+
 def evaluate(ctx, cases):
-    mouts = ctx.model.batch([model_line(c) for c in cases])
-    for c, mo in zip(cases, mouts):
-        if not mo.startswith("ok "):
-            raise InfraError("model rejected %r: %r" % (c, mo))
-        m = wire.dec_all(mo[3:])
-        fn = run_validate if c["kind"] == "validate" else run_appends
+    modelled = [c for c in cases if c["kind"] not in ("dictframe", "multi")]
+    mouts = dict(zip([id(c) for c in modelled], ctx.model.batch([model_line(c) for c in modelled])))
+    for c in cases:
+        kind = c["kind"]
+        m = None
+        if kind not in ("dictframe", "multi"):
+            mo = mouts[id(c)]
+            if not mo.startswith("ok "):
+                raise InfraError("model rejected %r: %r" % (c, mo))
+            m = wire.dec_all(mo[3:])
+        fn = RUNNERS[kind]
         clause, got = fn(c)
-        ctx.case(c, nontrivial=len(c["cols"]) >= 1)
-        ctx.hit("kind:" + c["kind"])
-        if c["kind"] == "validate":
-            ctx.hit("outcome:" + got[0])
-            if got[0] == "invalid":
-                ctx.hit("rules-fired:%d" % sum(1 for x in got[1:] if x))
+        ctx.case(c, nontrivial=kind in ("dictframe", "multi", "session") or len(c["cols"]) >= 1)
+        record_distribution(ctx, c, got)
         if clause is not None:
-            def still(c2):
+            shown = clause
+            if kind == "session":
+                red = reduce_session(c, clause)
+                if red is not None:
+                    c, clause = red
+                    fn, shown, m = RUNNERS[c["kind"]], clause, None
+                else:
+                    shown = HISTORY
+
+            def still(c2, fn=fn, clause=clause, kind=c["kind"]):
                 if not valid_case(c2):
                     return False
                 try:
-                    return fn(c2)[0] == clause
+                    if fn(c2)[0] != clause:
+                        return False
+                    return kind != "session" or reduce_session(c2, clause) is None
                 except Exception:
                     return False
 
-            c_min = c if ctx.replaying else shrink(c, still, budget=300)
-            ctx.fail(c_min, clause, impl=fn(c_min)[1], model=m)
+            c_min = c
+            if not ctx.replaying and not any(v.get("sig") == shown for v in ctx.violations):
+                c_min = shrink(c, still, budget=400)
+                c_min, shown = isolate(c_min, c, clause, shown, HISTORY_BUF)
+            ctx.fail(c_min, shown, impl=RUNNERS[c_min["kind"]](c_min)[1], model=m, detail=None if shown == clause else clause)
+            HISTORY_BUF.add(c)
             continue
-        if c["kind"] == "validate":
-            mm = m[0]
-            if mm[0] == "excess":
-                mm = ["excess", sorted(mm[1])]
-            if mm != got:
+        HISTORY_BUF.add(c)
+        if kind == "validate":
+            if norm_excess(m[0]) != canon(got):
                 ctx.disagree(c, got, m[0])
-        else:
-            # the model knows nothing about rows that validate but cannot be sized: compare when none was used
-            if not any(t == "int70" for r in c["records"] for t in r.values()):
-                if m[0] != got["rows"]:
-                    ctx.disagree(c, got, m)
+        elif kind == "appends":
+            if m[0] != got["rows"] or not results_agree(m[2], got["results"]):
+                ctx.disagree(c, got, m)
+        elif kind == "session":
+            mo_, ok = m[0], len(m[0]) == len(got)
+            for a, b in zip(mo_, got):
+                if not ok:
+                    break
+                if a[0] != b[0]:
+                    ok = False
+                elif a[0] == "outcome":
+                    ok = norm_excess(a[1]) == canon(b[1])
+                else:
+                    ok = a[1] == b[1] and results_agree(a[2], b[2])
+            if not ok:
+                ctx.disagree(c, got, m)
+
+
+def record_distribution(ctx, c, got):
+    kind = c["kind"]
+    ctx.hit("kind:" + kind)
+    if kind == "multi":
+        return
+    if kind == "validate":
+        ctx.hit("outcome:" + got[0])
+        if got[0] == "invalid":
+            ctx.hit("rules-fired:%d" % sum(1 for x in got[1:] if x))
+        if c.get("container", "dict") != "dict":
+            ctx.hit("record-container:" + c["container"])
+        if any(k.startswith("\x01") for k in c["record"]):
+            ctx.hit("record-key:not-a-string")
+        for t in c["record"].values():
+            if POOL[t] is not None and cls_name(POOL[t]) not in ("bool", "int", "float", "str", "bytes", "date", "datetime", "time",
+                                                                  "timedelta", "dict", "Decimal", "list", "tuple", "set"):
+                ctx.hit("value-class:" + cls_name(POOL[t]))
+    elif kind == "appends":
+        ctx.hit("frame-created:" + c.get("how", "list"))
+        for r in got["results"]:
+            ctx.hit("append:" + r[0])
+        if c.get("containers"):
+            ctx.hit("append-record-container:not-a-dict", len(c["containers"]))
+    elif kind == "session":
+        changed = False
+        for op in c["ops"]:
+            ctx.hit("session-op:" + op[0] + (":" + op[1] if op[0] == "touch" else ""))
+            if op[0] in MUTATIONS:
+                changed = True
+            elif op[0] == "validate" and changed:
+                ctx.hit("session:validate-after-change")
+            elif op[0] == "frame" and changed:
+                ctx.hit("session:frame-after-change")
+        for o in got:
+            if o[0] == "outcome":
+                ctx.hit("session-outcome:" + o[1][0])
 
 
 # ----------------------------------------------------------------------------- generators
+
+
+def gen_name(rng, used, i):
+    if rng.random() < 0.12:
+        cand = [n for n in ODD_NAMES if n not in used]
+        if cand:
+            return rng.choice(cand)
+    n = "c%d" % i
+    while n in used:
+        i += 1
+        n = "c%d" % i
+    return n
+
+
+def gen_col(rng, used, i):
+    name = gen_name(rng, used, i)
+    ty = None if rng.random() < 0.2 else rng.choice(TYPES)
+    r = rng.random()
+    if r < 0.5:
+        aliases = ["alias_" + name, name.upper() + "_aka"]
+    elif r < 0.7:
+        aliases = []
+    else:
+        aliases = [rng.choice(["zz", "extra", "c0", "c1", "id", name + "_"])]
+    return [name, ty, rng.random() < 0.5, aliases]
 
 
 def gen_cols(rng, n=None):
     n = rng.randint(0, 4) if n is None else n
     cols = []
     for i in range(n):
-        ty = None if rng.random() < 0.2 else rng.choice(TYPES)
-        cols.append(["c%d" % i, ty, rng.random() < 0.5])
+        cols.append(gen_col(rng, {c[0] for c in cols}, i))
     return cols
 
 
-def gen_record_tags(rng, cols, p_valid=0.5):
+def gen_record_tags(rng, cols, p_valid=0.5, also=()):
+    """A record for `cols`; `also` = names that were or will be columns of the same schema object."""
     tags = {}
     valid = rng.random() < p_valid
-    for n, ty, nl in cols:
+    for c in cols:
+        n, ty, nl = c[0], c[1], c[2]
         r = rng.random()
         if not valid and r < 0.18:
             continue  # missing
         if (valid and nl and r < 0.3) or (not valid and r < 0.36):
             tags[n] = "none"
         elif valid or r < 0.7:
-            tags[n] = rng.choice(RIGHT[ty]) if ty else rng.choice(list(POOL)[:-1])
+            tags[n] = rng.choice(RIGHT[ty]) if ty else rng.choice(ORDINARY)
         else:
-            tags[n] = rng.choice(list(POOL)[:-1])
+            tags[n] = rng.choice(ORDINARY)
     if not valid and rng.random() < 0.3:
-        extra = rng.choice(["zz", "extra", "C0"] + (["alias_" + cols[0][0], cols[-1][0].upper() + "_aka"] if cols else []))
-        tags[extra] = rng.choice(list(POOL)[:-1])
+        pool = ["zz", "extra", "C0", "\x01" + rng.choice(list(KEYPOOL))] + [a for a in also if a not in tags]
+        if cols:
+            c = rng.choice(cols)
+            pool += list(c[3])[:2] + [c[0].upper(), c[0] + " ", NFD if c[0] == NFC else NFC]
+        extra = rng.choice([p for p in pool if p not in tags] or ["zz"])
+        if extra not in [c[0] for c in cols]:
+            tags[extra] = rng.choice(ORDINARY)
+            if rng.random() < 0.2:  # two excess keys; -1 and -2 have equal hashes
+                tags["\x01intm1"] = "int"
+                tags["\x01intm2"] = "int"
     items = list(tags.items())
     rng.shuffle(items)
     return dict(items)
@@ -291,30 +914,172 @@ def gen_record_tags(rng, cols, p_valid=0.5):
 
 def gen_validate(rng):
     cols = gen_cols(rng)
-    return {"kind": "validate", "cols": cols, "record": gen_record_tags(rng, cols)}
+    c = {"kind": "validate", "cols": cols, "record": gen_record_tags(rng, cols)}
+    if rng.random() < 0.2:
+        c["container"] = rng.choice(list(CONTAINERS))
+    return c
+
+
+def gen_init_rows(rng, cols, n):
+    rows = []
+    for _ in range(n):
+        rows.append([("none" if (c[2] and rng.random() < 0.3) else (rng.choice(RIGHT[c[1]]) if c[1] else rng.choice(["int", "str", "list"])))
+                     for c in cols])
+    return rows
+
+
+def gen_append_records(rng, cols, also=()):
+    recs = [gen_record_tags(rng, cols, 0.6, also) for _ in range(rng.randint(1, 6))]
+    if rng.random() < 0.2:
+        cand = [c for c in cols if c[1] in UNSIZABLE_FOR]
+        if cand:
+            c = rng.choice(cand)
+            r = gen_record_tags(rng, cols, 1.0)
+            r[c[0]] = rng.choice(UNSIZABLE_FOR[c[1]])
+            recs.insert(rng.randint(0, len(recs)), r)
+    return recs
 
 
 def gen_appends(rng):
     cols = gen_cols(rng, rng.randint(1, 4))
-    rows = []
-    for _ in range(rng.choice([0, 0, 1, 2])):
-        rows.append([("none" if (nl and rng.random() < 0.3) else (rng.choice(RIGHT[ty]) if ty else rng.choice(["int", "str", "list"])))
-                     for _, ty, nl in cols])
-    recs = [gen_record_tags(rng, cols, 0.6) for _ in range(rng.randint(1, 6))]
-    if rng.random() < 0.15:
-        ints = [n for n, ty, _ in cols if ty in ("INTEGER", None)]
-        if ints:
-            r = gen_record_tags(rng, cols, 1.0)
-            r[ints[0]] = "int70"
-            recs.insert(rng.randint(0, len(recs)), r)
-    return {"kind": "appends", "cols": cols, "rows": rows, "records": recs}
+    rows = gen_init_rows(rng, cols, rng.choice([0, 0, 1, 2]))
+    recs = gen_append_records(rng, cols)
+    c = {"kind": "appends", "cols": cols, "rows": rows, "records": recs}
+    r = rng.random()
+    if r < 0.2:
+        c["how"] = "gen"
+    elif r < 0.4 and not rows:
+        c["how"] = "none"
+    if rng.random() < 0.25:
+        c["containers"] = {str(i): rng.choice(list(CONTAINERS)) for i in range(len(recs)) if rng.random() < 0.5}
+    return c
+
+
+def gen_mutation(rng, cur, retired, fresh_i):
+    """One change of the column list; names of removed columns come back, removed names stay in later records."""
+    used = {c[0] for c in cur}
+    kinds = ["add", "add", "insert", "replace", "touch"]
+    if cur:
+        kinds += ["del", "pop", "set", "set", "reverse"]
+    k = rng.choice(kinds)
+    if k == "touch":
+        return ["touch", rng.choice(TOUCHES)]
+
+    def new_col():
+        back = [n for n in retired if n not in used]
+        c = gen_col(rng, used, fresh_i)
+        if back and rng.random() < 0.4:
+            c[0] = rng.choice(back)
+        return c
+
+    if k == "add":
+        return ["add", new_col()]
+    if k == "insert":
+        return ["insert", rng.randint(0, len(cur)), new_col()]
+    if k == "del":
+        return ["del", rng.randrange(len(cur))]
+    if k == "pop":
+        return ["pop", rng.choice([c[0] for c in cur] + ["zz"])]
+    if k == "reverse":
+        return ["reverse"]
+    if k == "replace":
+        keep = [list(c) for c in cur if rng.random() < 0.6]
+        if rng.random() < 0.6:
+            used = {c[0] for c in keep}
+            back = [n for n in retired if n not in used]
+            c = gen_col(rng, used, fresh_i)
+            if back and rng.random() < 0.4:
+                c[0] = rng.choice(back)
+            keep.insert(rng.randint(0, len(keep)), c)
+        return ["replace", keep]
+    i = rng.randrange(len(cur))
+    c = list(cur[i])
+    what = rng.choice(["name", "type", "nullable", "aliases"])
+    if what == "name":
+        others = used - {c[0]}
+        c[0] = gen_name(rng, others | {c[0]}, fresh_i)
+    elif what == "type":
+        c[1] = rng.choice([t for t in TYPES + [None] if t != c[1]])
+    elif what == "nullable":
+        c[2] = not c[2]
+    else:
+        c[3] = [rng.choice(["zz", "extra", "c0", "c1", "c2", c[0] + "_x"])]
+    return ["set", i, c]
+
+
+def gen_session(rng):
+    cols = gen_cols(rng, rng.randint(0, 3))
+    ops = []
+    cur = [list(c) for c in cols]
+    snapshots = [cur]
+    retired = []
+    fresh = 10
+    for step in range(rng.randint(3, 9)):
+        r = rng.random()
+        if step == 0 or r < 0.5:
+            # half of the records are written for the columns as they were (or will be again): stale state shows there
+            basis = cur if rng.random() < 0.55 else rng.choice(snapshots)
+            also = [n for n in retired] + [c[0] for s in snapshots for c in s if c[0] not in [x[0] for x in cur]]
+            op = ["validate", gen_record_tags(rng, basis, 0.7, also)]
+            if rng.random() < 0.1:
+                op.append(rng.choice(list(CONTAINERS)))
+            ops.append(op)
+        elif r < 0.85:
+            op = gen_mutation(rng, cur, retired, fresh)
+            fresh += 1
+            new = apply_to_mirror(cur, op)
+            if not names_ok(new):
+                continue
+            for c in cur:
+                if c[0] not in [x[0] for x in new] and c[0] not in retired:
+                    retired.append(c[0])
+            ops.append(op)
+            cur = new
+            snapshots.append(cur)
+        else:
+            basis = cur if rng.random() < 0.6 else rng.choice(snapshots)
+            recs = [gen_record_tags(rng, basis if rng.random() < 0.7 else cur, 0.7, retired) for _ in range(rng.randint(1, 4))]
+            if rng.random() < 0.15:
+                cand = [c for c in cur if c[1] in UNSIZABLE_FOR]
+                if cand:
+                    c = rng.choice(cand)
+                    rr = gen_record_tags(rng, cur, 1.0)
+                    rr[c[0]] = rng.choice(UNSIZABLE_FOR[c[1]])
+                    recs.append(rr)
+            rows = gen_init_rows(rng, cur, rng.choice([0, 0, 1]))
+            op = ["frame", rows, recs]
+            if not rows and rng.random() < 0.3:
+                op.append("none")
+            elif rng.random() < 0.2:
+                op.append("gen")
+            ops.append(op)
+    return {"kind": "session", "cols": cols, "ops": ops}
+
+
+def gen_dictframe(rng):
+    keys = ["k%d" % i for i in range(rng.randint(1, 3))]
+    first = [{k: rng.choice(ORDINARY) for k in keys} for _ in range(rng.randint(1, 2))]
+    recs = []
+    for _ in range(rng.randint(1, 4)):
+        r = {k: rng.choice(ORDINARY) for k in keys if rng.random() < 0.85}
+        if rng.random() < 0.2:
+            r["zz"] = "int"
+        if rng.random() < 0.1:
+            r[rng.choice(keys)] = rng.choice(UNSIZABLE)
+        items = list(r.items())
+        rng.shuffle(items)
+        recs.append(dict(items))
+    c = {"kind": "dictframe", "first": first, "records": recs}
+    if rng.random() < 0.3:
+        c["containers"] = {str(i): rng.choice(list(CONTAINERS)) for i in range(len(recs)) if rng.random() < 0.5}
+    return c
 
 
 def decision_table():
     """Every column type x nullable x every value of the pool; and all subsets of {missing,null,wrong,excess}."""
     for ty in TYPES + [None]:
         for nl in (False, True):
-            for tag in list(POOL)[:-1]:
+            for tag in POOL:
                 yield {"kind": "validate", "cols": [["c0", ty, nl]], "record": {"c0": tag}}
             yield {"kind": "validate", "cols": [["c0", ty, nl]], "record": {}}
     cols = [["m", "INTEGER", True], ["n", "VARCHAR", False], ["w", "DOUBLE", True], ["u", None, True]]
@@ -327,30 +1092,106 @@ def decision_table():
         if excess:
             rec["zz" if (missing + null) % 2 == 0 else "alias_m"] = "int"
         for order in (list(rec.items()), list(reversed(list(rec.items())))):
-            yield {"kind": "validate", "cols": cols, "record": dict(order)}
+            for container in ("dict", "UserDict", "OrderedDict"):
+                c = {"kind": "validate", "cols": cols, "record": dict(order)}
+                if container != "dict":
+                    c["container"] = container
+                yield c
+    # every kind of two offences in two different columns of the same kind, and unhashable wrongly typed values
+    cols2 = [["a", "INTEGER", False], ["b", "INTEGER", False], ["c", "VARCHAR", False]]
+    for ta, tb in itertools.product(["int", "none", "list", None], repeat=2):
+        rec = {"c": "dict"}
+        if ta:
+            rec["a"] = ta
+        if tb:
+            rec["b"] = tb
+        yield {"kind": "validate", "cols": cols2, "record": rec}
+    # keys that are not strings, keys that differ from a name only in case / normal form / trailing space
+    base = [["c0", "INTEGER", True, ["k"]], [NFC, None, True, []]]
+    for extra in ["\x01" + t for t in KEYPOOL] + ["C0", "c0 ", NFD, "k", ""]:
+        yield {"kind": "validate", "cols": base, "record": {"c0": "int", NFC: "str", extra: "int"}}
+    yield {"kind": "validate", "cols": base, "record": {"c0": "int", NFC: "str", "\x01intm1": "int", "\x01intm2": "int"}}
+    # the row serialiser's limits, one append each, for every way a frame is created
+    for how in ("list", "none", "gen"):
+        for tag in ("i64max", "i64min", "u64max") + UNSIZABLE:
+            col = "ARRAY" if tag == "list70" else ("STRUCT" if tag == "dict70" else "INTEGER")
+            yield {"kind": "appends", "cols": [["c0", col, True]], "rows": [], "how": how,
+                   "records": [{"c0": RIGHT[col][0]}, {"c0": tag}, {"c0": "none"}]}
+    for container in CONTAINERS:
+        yield {"kind": "appends", "cols": [["a", "INTEGER", False], ["b", "VARCHAR", True]], "rows": [["int", "str"]],
+               "records": [{"b": "str", "a": "int"}, {"a": "str", "b": "str"}, {"a": "int"}], "containers": {"0": container, "1": container, "2": container}}
+        yield {"kind": "dictframe", "first": [{"a": "int", "b": "str"}], "records": [{"b": "str", "a": "int"}, {"a": "int70"}, {"zz": "int"}],
+               "containers": {"0": container, "1": container}}
+
+
+def session_table():
+    """Use -> change -> use again, once for every way the column list of one schema object can change."""
+    a, b, d = ["a", "INTEGER", False, ["id"]], ["b", "VARCHAR", True, []], ["d", "DOUBLE", True, []]
+    full = {"a": "int", "b": "str"}
+    with_d = {"a": "int", "b": "str", "d": "float"}
+    only_a = {"a": "int"}
+    changes = [
+        (["add", d], with_d), (["insert", 0, d], with_d), (["insert", 1, d], with_d),
+        (["del", 1], only_a), (["del", 0], {"b": "str"}), (["pop", "b"], only_a), (["pop", "zz"], full),
+        (["replace", [a, b, d]], with_d), (["replace", [a]], only_a), (["replace", [b, a]], full), (["replace", []], {}),
+        (["set", 1, ["d", "VARCHAR", True, []]], {"a": "int", "d": "str"}),            # rename
+        (["set", 1, ["b", "INTEGER", True, []]], {"a": "int", "b": "int"}),             # retype
+        (["set", 1, ["b", None, True, []]], {"a": "int", "b": "list"}),                 # untype
+        (["set", 0, ["a", "INTEGER", True, ["id"]]], {"a": "none", "b": "str"}),        # nullable on
+        (["set", 1, ["b", "VARCHAR", False, []]], full),                                # nullable off
+        (["set", 0, ["a", "INTEGER", False, ["d", "zz"]]], full),                       # new aliases
+        (["reverse"], full),
+    ]
+    probes = [full, with_d, only_a, {"a": "int", "b": "none"}, {"a": "none", "b": "str"}, {"a": "int", "b": "int"}, {"a": "int", "id": "int", "b": "str"}]
+    for change, conforming in changes:
+        for first in (full, with_d):
+            for touch in (None, "deepcopy", "names"):
+                ops = [["validate", first]]
+                if touch:
+                    ops.append(["touch", touch])
+                ops.append(change)
+                ops += [["validate", p] for p in probes + [conforming]]
+                ops.append(["frame", [], [conforming, full, with_d, only_a], "none"])
+                yield {"kind": "session", "cols": [a, b], "ops": ops}
+        # the first use is an append through a frame
+        yield {"kind": "session", "cols": [a, b], "ops": [["frame", [], [full, with_d]], change, ["frame", [], [conforming, full, with_d, only_a]],
+                                                        ["validate", conforming], ["validate", full], ["validate", with_d]]}
+    # two changes that undo each other, and state the verdict must not depend on
+    for touch in TOUCHES:
+        yield {"kind": "session", "cols": [a, b], "ops": [["validate", full], ["touch", touch], ["validate", full], ["validate", with_d],
+                                                        ["add", d], ["touch", touch], ["validate", with_d], ["validate", full], ["del", 2], ["validate", full],
+                                                        ["validate", with_d], ["frame", [["int", "str"]], [full, with_d]]]}
 
 
 def run(ctx):
-    ctx.note("rule", "validate(record) and append histories on schema-bound frames; non-trivial = schema with at least one column; distinct by canonical JSON")
+    ctx.note("rule", "validate(record), append histories on schema-bound and dictionary-built frames, and sessions on one schema object (use, change, use again); non-trivial = schema with at least one column or a session; distinct by canonical JSON")
     cases = list(decision_table())
+    n_dec = len(cases)
+    sess = list(session_table())
+    cases += sess
     evaluate(ctx, cases)
-    ctx.note("exhaustive_scope", "decision table: every column type (and untyped) x nullable x every value kind of the pool, plus every subset of {missing, null, wrong type, excess} in two key orders (%d cases); then random schemas, records and append histories" % len(cases))
-    n = ctx.scale(6000, 80000)
+    ctx.note("exhaustive_scope", "decision table: every column type (and untyped) x nullable x every value of the pool (subclasses, numpy scalars, unhashable and nested values, 64-bit limits), every subset of {missing, null, wrong type, excess} in two key orders and three record containers, record keys that are not strings or differ from a name in case / normal form / a trailing space, the row serialiser's limits for each way a frame is created (%d cases); session table: use -> change -> use again for every way the column list of one schema object can change x first use x state touched in between (%d cases); then random schemas, records, append histories and sessions" % (n_dec, len(sess)))
+    n = ctx.scale(24000, 500000)
     done = 0
     while done < n and ctx.time_left() > 5:
-        batch = [gen_validate(ctx.rng) if ctx.rng.random() < 0.6 else gen_appends(ctx.rng) for _ in range(2000)]
+        batch = []
+        for _ in range(1500):
+            r = ctx.rng.random()
+            batch.append(gen_validate(ctx.rng) if r < 0.4 else gen_appends(ctx.rng) if r < 0.62 else gen_session(ctx.rng) if r < 0.95 else gen_dictframe(ctx.rng))
         evaluate(ctx, batch)
         done += len(batch)
-    # one append that passes validation but exceeds the record size cap (slow: kept to a single case)
-    big = {"kind": "appends", "cols": [["c0", "VARCHAR", True]], "rows": [], "records": [{"c0": "str"}, {"c0": "huge"}, {"c0": "empty"}]}
-    POOL["huge"] = "x" * (17 * 1024 * 1024)
-    try:
-        clause, got = run_appends_huge(big)
-        ctx.case({"kind": "appends-huge"}, True)
-        if clause:
-            ctx.fail(big, clause, impl=got)
-    finally:
-        POOL.pop("huge", None)
+    # appends that pass validation at the record size cap: exactly at it, one past it, far past it (slow: single cases)
+    for tag, n_chars in (("at-cap", 16 * 1024 * 1024 - 6), ("past-cap", 16 * 1024 * 1024 - 5), ("huge", 17 * 1024 * 1024)):
+        big = {"kind": "appends", "cols": [["c0", "VARCHAR", True]], "rows": [], "records": [{"c0": "str"}, {"c0": tag}, {"c0": "empty"}]}
+        POOL[tag] = "x" * n_chars
+        try:
+            clause, got = run_appends_huge(big)
+            ctx.case({"kind": "appends-" + tag}, True)
+            ctx.hit("record-size:%s:%s" % (tag, "accepted" if got["accepted"] == 3 else "refused"))
+            if clause:
+                ctx.fail(big, clause, impl=got)
+        finally:
+            POOL.pop(tag, None)
 
 
 def run_appends_huge(case):
@@ -375,22 +1216,49 @@ def run_appends_huge(case):
 
 def intensify(ctx):
     for _ in range(5):
-        evaluate(ctx, [gen_validate(ctx.rng) for _ in range(3000)] + [gen_appends(ctx.rng) for _ in range(1000)])
+        evaluate(ctx, [gen_validate(ctx.rng) for _ in range(2000)] + [gen_appends(ctx.rng) for _ in range(1000)]
+                 + [gen_session(ctx.rng) for _ in range(1500)] + [gen_dictframe(ctx.rng) for _ in range(100)])
         if ctx.violations:
             return
 
 
+BIG_TAGS = {"at-cap": 16 * 1024 * 1024 - 6, "past-cap": 16 * 1024 * 1024 - 5, "huge": 17 * 1024 * 1024}
+
+
 def replay(ctx, case):
-    if any(t == "huge" for r in case.get("records", []) for t in (r.values() if isinstance(r, dict) else [])):
-        POOL["huge"] = "x" * (17 * 1024 * 1024)
+    big = [t for r in case.get("records", []) if isinstance(r, dict) for t in r.values() if t in BIG_TAGS]
+    if big:
+        for t in big:
+            POOL[t] = "x" * BIG_TAGS[t]
         try:
             clause, got = run_appends_huge(case)
             if clause:
                 ctx.fail(case, clause, impl=got)
         finally:
-            POOL.pop("huge", None)
+            for t in big:
+                POOL.pop(t, None)
         return
+    if not case.get("kind"):  # replays written by round 1 shrank the kind away
+        case = dict(case, kind="appends" if "records" in case else "validate")
     evaluate(ctx, [case])
 
 
 KNOWN_PREDICATES = {}
+
+
+if __name__ == "__main__":
+    # isolated evaluation of a list of cases (JSON on stdin) in a fresh interpreter: prints the list of their clauses
+    import json
+    import sys
+
+    from harness import runner
+    from harness.core import unjson
+
+    runner.setup_impl_path()
+    out = []
+    for case_ in unjson(json.load(sys.stdin)):
+        try:
+            out.append(RUNNERS[case_["kind"]](case_)[0])
+        except Exception as e_:
+            out.append("error: %s" % type(e_).__name__)
+    print(json.dumps(out))
